@@ -26,6 +26,9 @@ pub(super) fn exactly_one<T>(iter: impl IntoIterator<Item = T>) -> T {
 }
 
 pub(super) fn block_string_value(raw: &str) -> String {
+    // The only escape sequence inside a block string
+    let raw = &raw.replace("\\\"\"\"", "\"\"\"");
+
     // Split the string by either \r\n, \r or \n
     let lines: Vec<_> = raw
         .split("\r\n")
